@@ -24,6 +24,7 @@ fn streams() -> Vec<Stream> {
     vec![
         Stream { name: "function-lattice", count: (LATTICE.len() as u64 * 6 * 40, LATTICE.len() as u64 * 6 * 400), exhaustive: false, run: fn_lattice },
         Stream { name: "function-random", count: (120_000, 3_000_000), exhaustive: false, run: fn_random },
+        Stream { name: "function-boundary-tuned", count: (120_000, 3_000_000), exhaustive: false, run: fn_boundary },
         Stream { name: "scenarios", count: (25_000, 800_000), exhaustive: false, run: |c, r, _| scenario(c, r, Focus::default(), c07_monitor) },
         Stream { name: "scenarios-tuned-change", count: (24_000, 800_000), exhaustive: false, run: |c, r, _| scenario_tuned(c, r, Focus { coin_select: 3, ..Focus::default() }, c07_monitor) },
         Stream { name: "scenarios-tight", count: (20_000, 600_000), exhaustive: false, run: tight },
@@ -160,6 +161,31 @@ fn fn_lattice(ctx: &mut Ctx, r: &mut Rng, i: u64) {
     let o = g.tx_output();
     let o = with_coin(&o, coin);
     ctx.bucket("fn.lattice-coin");
+    check_fn(ctx, &o, cpb);
+}
+
+/// the price per byte is chosen for the output at hand so that its minimum sits next to a CBOR width boundary B
+/// of the coin field (24, 256, 2^16, 2^32), and the output's current coin is placed around B: a coin just above B
+/// makes the output longer than the one the minimum was computed for
+fn fn_boundary(ctx: &mut Ctx, r: &mut Rng, _i: u64) {
+    let b = *r.pick(&[24u64, 256, 65_536, 65_536, 1 << 32, 1 << 32]);
+    let k = r.below(14);
+    let spread = r.below(4);
+    let mut g = G::new(r, 2, 4);
+    let o = g.tx_output();
+    let s0 = match enc_len(&with_coin(&o, 0)) {
+        Some(l) => l,
+        None => return,
+    };
+    let cpb = (b / (160 + s0 + k)).max(1);
+    let cur = match spread {
+        0 => 0,
+        1 => b - 1,
+        2 => b + g.r.below(cpb * 12 + 2),
+        _ => b.saturating_sub(g.r.below(cpb * 4 + 2)),
+    };
+    let o = with_coin(&o, cur);
+    ctx.bucket("fn.boundary-tuned");
     check_fn(ctx, &o, cpb);
 }
 
